@@ -890,6 +890,14 @@ class CallMixin:
         if not args:
             yield st, V(TMap(TOpaque("$empty"), NONE), [z3.K(zsort(TOpaque("$empty")), z3.BoolVal(False))])
             return
+        if isinstance(args[0], EnumVal) and not isinstance(args[0].inner, (Bag, RangeVal, EnumVal, ZipVal)):
+            # dict(enumerate(xs)): position -> element (the value arrays of the map are the element arrays of the sequence)
+            sq = self.as_value(args[0].inner)
+            if isinstance(sq.t, TSeq) and z3.is_int_value(args[0].start) and args[0].start.as_long() == 0:
+                i = z3.Int(fresh_name("i"))
+                keys = z3.Lambda([i], z3.And(0 <= i, i < sq.zs[0]))
+                yield st, V(TMap(INT, sq.t.elem), [keys] + list(sq.zs[1:]))
+                return
         a = self.as_value(args[0])
         if isinstance(a.t, TMap):
             yield st, a
